@@ -778,6 +778,63 @@ def gen_partition(rng):
     return normalise({"cfg": cfg, "steps": sc.steps, "flavour": "partition"})
 
 
+def gen_abandon(rng):
+    """A connect is accepted (accept answers the SYN at once) and then abandoned by the connector
+    before it polls again (cancel); the RST it sends is delivered sooner or later (held link:
+    scripted; healthy link: at once); the acceptor reads, writes, counts.  Other connectors behave."""
+    n = rng.choice([2, 2, 3])
+    cfg = base_cfg(rng, n, cap=rng.choice([3, 4, 5]))
+    sc = Script(cfg)
+    pairs = [(a, b) for b in range(n) for a in range(b)]
+    held = rng.random() < 0.75
+    if held:
+        for (a, b) in pairs:
+            sc.ctl(0, ["hold", a, b])
+    srv = rng.randrange(n)
+    remote = [h for h in range(n) if h != srv]
+    sc.cmd(0, srv, ["bind", 1, "unspec", 9000])
+    cli = rng.choice(remote)
+    sc.cmd(1, cli, ["connect", 1, {"h": srv}, 9000])
+    two = rng.random() < 0.5
+    if two:
+        sc.cmd(1, cli, ["connect", 2, {"h": srv}, 9000])
+    if held:
+        sc.ctl(2, ["deliver", cli, srv, 0])
+        if two:
+            sc.ctl(2, ["deliver", cli, srv, 1])
+    ta = 2 if held else 1
+    sc.cmd(ta, srv, ["accept", 1, 100])
+    if two:
+        sc.cmd(ta, srv, ["accept", 1, 101])
+    tc = ta + rng.choice([1, 1, 2])
+    sc.cmd(tc, cli, ["cancel", 1])                    # abandoned after it was accepted, never polled
+    if two:
+        sc.cmd(tc, cli, ["poll", 2])
+        sc.cmd(tc, cli, ["try_write", 2, nonce(2)])
+    if rng.random() < 0.3:
+        sc.cmd(tc, srv, ["try_write", 100, [9, 9]])
+    t = tc + 1
+    if held:
+        if rng.random() < 0.7:
+            for j in range(3):
+                sc.ctl(t + j, ["deliver", cli, srv, 0])
+        elif rng.random() < 0.6:
+            for (a, b) in pairs:
+                sc.ctl(t + 1, ["release", a, b])
+    for j in range(1, 6):
+        sc.cmd(t + j, srv, ["read", 100, 8])
+    sc.cmd(t + 3, srv, ["count"])
+    sc.cmd(t + 5, srv, ["count"])
+    if two:
+        sc.cmd(t + 4, srv, ["read", 101, 8])
+    if rng.random() < 0.5:
+        sc.cmd(t + 6, srv, ["drop", 100])
+    for h in range(n):
+        sc.cmd(t + 7, h, ["count"])
+    sc.step(t + 8)
+    return normalise({"cfg": cfg, "steps": sc.steps, "flavour": "abandon"})
+
+
 def gen_residue(rng):
     """Refused and cancelled connects in a row on a tiny ephemeral range: the
     table must be empty again each time and the ports must not run out."""
